@@ -11,6 +11,9 @@ def run(tier):
     rd = replay.Replay("harness.modes:c14delta")
     rd.run_lens("delta_ops")
     out.add_replay(rd, "termmachine")
+    rg = replay.Replay("harness.modes:c14gauss", procs=8, chunk=2)
+    rg.run_lens("GaussCat")
+    out.add_replay(rg, "gaussops")
     events = rp.events
     jr, n_ok, n_bad, n_undef = judge_events(out, events, "C14", lambda e: "%s|%s" % (e["what"], e["sig"]))
     cov = check.replay_coverage(
@@ -27,6 +30,11 @@ def run(tier):
     cov["traces_validated_against_impl"] += rd.records
     cov["delta_programs"] = rd.records
     cov["delta_verdicts"] = dict(rd.counts)
+    cov["states"] += rg.states
+    cov["transitions"] += rg.transitions
+    cov["traces_validated_against_impl"] += rg.records
+    cov["gaussian_sampling_problems"] = rg.records
+    cov["gaussian_sampling_verdicts"] = dict(rg.counts)
     cov["delta_declines"] = {"%s/%s" % k: n for k, n in rd.sigs.most_common(8)}
     out.coverage = cov
     return out.finish()
